@@ -4,6 +4,12 @@ cd /verif
 for pf in "$@"; do
   out=$(./seedtool.sh detect $pf 2>&1)
   c=$(echo "$out" | grep DETECT | sed 's/.*caught-by://')
+  name=$(basename $(dirname $(realpath $pf)))
+  if grep -q "^$name " refactors/EXPECTED_ALARMS.txt 2>/dev/null; then
+    case "$c" in *NONE*|"") echo "$name: alarms:$c (listed in EXPECTED_ALARMS.txt but silent)";; *) echo "$name: EXPECTED-ALARM:$c";; esac
+    continue
+  fi
   echo "$(echo $pf | sed 's#.*/out/##; s#/patch.diff##'): alarms:$c"
+  [ -n "$(echo "$out" | grep DETECT)" ] || echo "  ERROR: no verdict for $pf"
   case "$c" in *NONE*) ;; *) echo "$out" | grep -E "^\s+\[" | cut -c1-260 | head -4;; esac
 done
